@@ -3,6 +3,7 @@ package main
 import (
 	"fmt"
 	"go/types"
+	"sort"
 	"strings"
 
 	"golang.org/x/tools/go/ssa"
@@ -48,6 +49,7 @@ func (c *Ctx) requireCall(rule, key string, f *ssa.Function, calleeSuffix string
 		}
 	}
 	c.Check(ok, rule, key+" · "+calleeSuffix, f.Pos(), "called with "+strings.Join(got, " ;; "), fmt.Sprintf("%s is called with [%s]; the specification requires [%s]", calleeSuffix, strings.Join(got, " ;; "), strings.Join(want, " ;; ")))
+	c.Check(mustCallOnEveryPath(f, calleeSuffix), rule, key+" · "+calleeSuffix+" on every path", f.Pos(), "no return is reachable without the call", "a path returns without calling "+calleeSuffix+": the component keeps a stale value")
 }
 
 func checkC21(c *Ctx) (string, []string) {
@@ -60,10 +62,8 @@ func checkC21(c *Ctx) (string, []string) {
 	av := "inter.GetAvailableWorkReports(INTER)"
 
 	c.Rule("C21.partition", "W! = the available reports with no prerequisites and no segment-root lookups (GP 12.4); W^Q = E([D(w) | w available with a dependency], ©ξ) (12.5) with ©ξ the union of the prior accumulated history and D(w) = (w, prerequisites ∪ lookup package hashes)", 8)
-	c.checkCondSet("C21.partition", A+"UpdateImmediatelyAccumulateWorkReports", wbang, []string{"(* < len(" + av + "))", "(0 == len(" + av + "[*].Context.Prerequisites))", "(0 == len(" + av + "[*].SegmentRootLookup))"})
 	c.requireCall("C21.partition", A+"UpdateImmediatelyAccumulateWorkReports", wbang, "SetAccumulatedWorkReports", []string{"INTER ‖ ⊕(make([]types.WorkReport, 0); [" + av + "[*]][:])"})
 	c21Both(c, wbang, true)
-	c.checkCondSet("C21.partition", A+"UpdateQueuedWorkReports", wq, []string{"(* < len(" + av + "))", "(0 != len(" + av + "[*].Context.Prerequisites))", "(0 != len(" + av + "[*].SegmentRootLookup))"})
 	c.requireCall("C21.partition", A+"UpdateQueuedWorkReports", wq, "SetQueuedWorkReports", []string{"INTER ‖ " + A + "QueueEditingFunction(⊕(make([]types.ReadyRecord, 0); [" + A + "GetDependencyFromWorkReport(" + av + "[*])][:]), " + A + "GetAccumulatedHashes())"})
 	c21Both(c, wq, false)
 	c.checkShapes("C21.partition", A+"GetAccumulatedHashes", hashes, abbrMap(returnShapes(hashes)), map[string][]string{"ret": {"⊕(make([]types.WorkPackageHash, 0); prior.GetXi(PRIOR)[*])"}})
@@ -75,15 +75,8 @@ func checkC21(c *Ctx) (string, []string) {
 	c.checkShapes("C21.edit", A+"ExtractWorkReportHashes", P, abbrMap(returnShapes(P)), map[string][]string{"ret": {"⊕(make([]types.WorkPackageHash, 0); [p0[*].PackageSpec.Hash][:])"}})
 
 	c.Rule("C21.priority", "Q(r) (12.8): g = reports of records with no remaining dependency, in order; empty g ends the recursion; otherwise g ⌢ Q(E(r, P(g))); W* = W! ⌢ Q(E(ϑ[m:] ⌢ ϑ[:m] ⌢ W^Q, P(W!))) with m = block slot mod E (12.10-12.12)", 3)
-	g := "⊕(make([]types.WorkReport, 0); [p0[*].Report][:])"
-	c.checkCondSet("C21.priority", A+"AccumulationPriorityQueue", Q, []string{"(* < len(p0))", "(0 == len(p0[*].Dependencies))", "(0 == len(" + g + "))"})
-	rec := A + "AccumulationPriorityQueue(" + A + "QueueEditingFunction(p0, " + A + "ExtractWorkReportHashes(" + g + ")))"
-	c.checkShapes("C21.priority", A+"AccumulationPriorityQueue", Q, abbrMap(returnShapes(Q)), map[string][]string{"ret": {"append(" + g + ", " + rec + ")", "nil"}})
-	m := "(int(BLOCK.Header.Slot) % types.EpochLength)"
-	comp := "append(⊕(⊕(make([]types.ReadyRecord, 0); prior.GetVartheta(PRIOR)[" + m + ":][*]); prior.GetVartheta(PRIOR)[:" + m + "][*]), inter.GetQueuedWorkReports(INTER))"
-	c.requireCall("C21.priority", A+"UpdateAccumulatableWorkReports", wstar, "SetAccumulatableWorkReports", []string{
-		"INTER ‖ append(append(make([]types.WorkReport, 0), inter.GetAccumulatedWorkReports(INTER)), " + A + "AccumulationPriorityQueue(" + A + "QueueEditingFunction(" + comp + ", " + A + "ExtractWorkReportHashes(inter.GetAccumulatedWorkReports(INTER)))))",
-	})
+	c21Priority(c, Q, E, P)
+	c21Wstar(c, wstar, E, Q, P)
 
 	c.Rule("C21.history", "ξ'[E−1] = P(W*[:n]) and ξ'[i] = ξ[i+1] (12.31-12.32); ϑ' (12.33): slot m gets E(W^Q, ξ'[E−1]); the slots skipped since the prior block are emptied; every other slot gets E(ϑ[slot], ξ'[E−1]) — both edits remove exactly the hashes accumulated in this block", 6)
 	cs := "(*internal/blockchain.ChainState)."
@@ -113,43 +106,61 @@ func checkC21(c *Ctx) (string, []string) {
 		[]string{"canonical SSA renderer (Σ/⊕ accumulation forms), GP 12.4-12.12, 12.31-12.33", "not decided: ordering semantics on runtime dependency graphs (cycles, duplicates), the value of n"}
 }
 
-// c21Both: the two dependency tests are combined with AND (W!) / OR (W^Q):
-// the append is reached only when both hold (W!) / when either holds (W^Q).
+// c21Both: the report list handed to the setter is built by appending, once per
+// available report, under a selection that is decided as a truth table over
+// (|prerequisites|, |segment-root lookups|) ∈ {0,1,2}²: W! takes a report iff
+// both are empty, W^Q takes D(report) iff either is non-empty.
 func c21Both(c *Ctx, f *ssa.Function, and bool) {
-	var app ssa.Instruction
+	o := robustOpts
+	var app *ssa.Call
+	napp := 0
 	allInstrs(f, func(in ssa.Instruction) {
 		if call, ok := in.(*ssa.Call); ok {
 			if b, ok := call.Call.Value.(*ssa.Builtin); ok && b.Name() == "append" {
-				app = in
+				app = call
+				napp++
 			}
 		}
 	})
-	if app == nil {
-		c.Bad("C21.partition", funcKey(f)+" · selection", f.Pos(), "no append found")
+	if app == nil || napp != 1 {
+		c.Bad("C21.partition", funcKey(f)+" · selection", f.Pos(), "expected exactly one append building the selected list, found %d", napp)
 		return
 	}
-	pre := condEdges(f, func(v ssa.Value) (bool, bool) {
-		s := abbr(exprStr(v, shapeOpts))
-		return strings.HasSuffix(s, ".Context.Prerequisites))"), strings.HasPrefix(s, "(0 == ") == and
-	})
-	seg := condEdges(f, func(v ssa.Value) (bool, bool) {
-		s := abbr(exprStr(v, shapeOpts))
-		return strings.HasSuffix(s, ".SegmentRootLookup))"), strings.HasPrefix(s, "(0 == ") == and
-	})
-	ok := len(pre) == 1 && len(seg) == 1
-	if ok {
-		if and {
-			ok = guardedBy(f, app, pre) && guardedBy(f, app, seg)
-		} else {
-			// reachable through either passing edge, not reachable when both fail
-			ok = !guardedBy(f, app, pre) && !guardedBy(f, app, seg) && guardedBy(f, app, append(append([]edge{}, pre...), seg...))
+	match := func(s string) int {
+		switch {
+		case strings.HasPrefix(s, "len(") && strings.HasSuffix(s, ".Context.Prerequisites)"):
+			return 0
+		case strings.HasPrefix(s, "len(") && strings.HasSuffix(s, ".SegmentRootLookup)"):
+			return 1
+		}
+		return -1
+	}
+	rows, reached, ok := selectionTable(app, o, nil, match, [][]int64{{0, 1, 2}, {0, 1, 2}})
+	msg := "a report is selected exactly when it has no prerequisite and no segment-root lookup"
+	if !and {
+		msg = "a report is queued exactly when it has a prerequisite or a segment-root lookup"
+	}
+	if !ok {
+		c.Bad("C21.partition", funcKey(f)+" · selection", app.Pos(), "the selection is not a function of (|prerequisites|, |segment-root lookups|) of the report: some other test guards the append")
+		return
+	}
+	bad := ""
+	for i, r := range rows {
+		free := r[0] == 0 && r[1] == 0
+		if reached[i] != (free == and) {
+			bad = fmt.Sprintf("with %d prerequisites and %d segment-root lookups the report is selected=%v", r[0], r[1], reached[i])
+			break
 		}
 	}
-	msg := "a report is selected only when it has no prerequisite and no segment-root lookup"
+	c.Check(bad == "", "C21.partition", funcKey(f)+" · selection", app.Pos(), msg+" (9/9 rows)", "the selection does not combine the two dependency tests as specified: "+bad+" ("+msg+")")
+	// the tested report is the one taken
+	el := abbr(exprStr(app.Call.Args[1], o))
+	av := "inter.GetAvailableWorkReports(INTER)"
+	want := "[" + av + "[*]][:]"
 	if !and {
-		msg = "a report is queued when it has a prerequisite or a segment-root lookup"
+		want = "[internal/accumulation.GetDependencyFromWorkReport(" + av + "[*])][:]"
 	}
-	c.Check(ok, "C21.partition", funcKey(f)+" · selection", app.Pos(), msg, "the selection does not combine the two dependency tests as specified ("+msg+")")
+	c.Check(el == want, "C21.partition", funcKey(f)+" · element", app.Pos(), "appends "+want, "appends "+el+" instead of "+want)
 }
 
 // c21Deps: D(w) collects prerequisites then lookup package hashes into one fresh list.
@@ -175,23 +186,25 @@ func c21Deps(c *Ctx, f *ssa.Function) {
 
 func c21Edit(c *Ctx, f *ssa.Function) {
 	key := funcKey(f)
+	o := robustOpts
 	// the lookup set is built from x
 	setOK := false
-	var set ssa.Value
 	allInstrs(f, func(in ssa.Instruction) {
 		if mu, ok := in.(*ssa.MapUpdate); ok {
-			if _, isMk := mu.Map.(*ssa.MakeMap); isMk && abbr(exprStr(mu.Key, shapeOpts)) == "p1[*]" {
-				if k, ok := mu.Value.(*ssa.Const); ok && k.Value != nil && k.Value.String() == "true" {
-					setOK, set = true, mu.Map
-				}
+			if _, isMk := mu.Map.(*ssa.MakeMap); isMk && abbr(exprStr(mu.Key, o)) == "p1[*]" {
+				setOK = true
 			}
 		}
 	})
 	c.Check(setOK, "C21.edit", key+" · removal set", f.Pos(), "membership set holds exactly the hashes of x", "the removal set is not built from every element of x")
-	_ = set
-	// appends
-	var resApp, depApp *ssa.Call
-	allInstrs(f, func(in ssa.Instruction) {
+	// appends (in E or in helpers it uses)
+	type site struct {
+		call  *ssa.Call
+		g     *ssa.Function
+		subst map[ssa.Value]string
+	}
+	var resApp, depApp *site
+	visitWithHelpers(f, o, func(g *ssa.Function, subst map[ssa.Value]string, in ssa.Instruction) {
 		call, ok := in.(*ssa.Call)
 		if !ok {
 			return
@@ -201,32 +214,61 @@ func c21Edit(c *Ctx, f *ssa.Function) {
 		}
 		switch {
 		case strings.HasSuffix(typeStr(call.Type()), "types.ReadyQueueItem") || strings.Contains(typeStr(call.Type()), "ReadyRecord"):
-			resApp = call
+			resApp = &site{call, g, subst}
 		case strings.Contains(typeStr(call.Type()), "WorkPackageHash"):
-			depApp = call
+			depApp = &site{call, g, subst}
 		}
 	})
 	if resApp == nil || depApp == nil {
 		c.Bad("C21.edit", key+" · structure", f.Pos(), "result append / dependency append not found")
 		return
 	}
-	own := condEdges(f, func(v ssa.Value) (bool, bool) {
-		return abbr(exprStr(v, shapeOpts)) == "makemap[cell(p0[*]).Report.PackageSpec.Hash]#1", false
-	})
-	c.Check(len(own) == 1 && guardedBy(f, resApp, own), "C21.edit", key+" · drops accumulated records", resApp.Pos(), "a record is kept only when its own package hash is not in x", "records whose package hash is in x are not dropped (or the test is on another field)")
-	depc := condEdges(f, func(v ssa.Value) (bool, bool) {
-		return abbr(exprStr(v, shapeOpts)) == "makemap[cell(p0[*]).Dependencies[*]]#1", false
-	})
-	c.Check(len(depc) == 1 && guardedBy(f, depApp, depc) && abbr(exprStr(depApp.Call.Args[1], shapeOpts)) == "[cell(p0[*]).Dependencies[*]][:]", "C21.edit", key+" · filters dependencies", depApp.Pos(), "a dependency is kept only when it is not in x", "satisfied dependencies are not removed (or the wrong element is kept)")
+	member := func(elemSuffix string) func(string) int {
+		return func(s string) int {
+			// set[elem] (bool-valued set) or set[elem]#1 (comma-ok lookup)
+			if strings.HasPrefix(s, "makemap[") && (strings.HasSuffix(s, elemSuffix+"]#1") || strings.HasSuffix(s, elemSuffix+"]")) {
+				return 0
+			}
+			return -1
+		}
+	}
+	{
+		rows, reached, ok := selectionTable(resApp.call, o, resApp.subst, member(".Report.PackageSpec.Hash"), [][]int64{{0, 1}})
+		good := ok && len(rows) == 2
+		if good {
+			for i, r := range rows {
+				if reached[i] != (r[0] == 0) {
+					good = false
+				}
+			}
+		}
+		c.Check(good, "C21.edit", key+" · drops accumulated records", resApp.call.Pos(), "a record is kept exactly when its own package hash is not in x", "records whose package hash is in x are not dropped, or others are (the keep decision is not `own package hash ∉ x`)")
+	}
+	{
+		rows, reached, ok := selectionTable(depApp.call, o, depApp.subst, member(".Dependencies[*]"), [][]int64{{0, 1}})
+		good := ok && len(rows) == 2
+		if good {
+			for i, r := range rows {
+				if reached[i] != (r[0] == 0) {
+					good = false
+				}
+			}
+		}
+		el := abbr(exprStrSubst(depApp.call.Call.Args[1], o, depApp.subst))
+		c.Check(good && strings.HasSuffix(el, ".Dependencies[*]][:]"), "C21.edit", key+" · filters dependencies", depApp.call.Pos(), "a dependency is kept exactly when it is not in x", "satisfied dependencies are not removed (or the wrong element is kept: "+el+")")
+	}
 	// freshness of the filtered list: the append chain starts at a make
-	root := localRoot(depApp.Call.Args[0])
+	root := localRoot(depApp.call.Call.Args[0])
 	_, isMake := root.(*ssa.MakeSlice)
-	c.Check(isMake, "C21.edit", key+" · fresh dependency list", depApp.Pos(), "filtered dependencies are appended to a slice made in this call", "the filtered dependency list is built in the backing array of the caller's record ("+abbr(exprStr(depApp.Call.Args[0], shapeOpts))+"): stored queue entries are overwritten")
-	// no store through parameters
+	c.Check(isMake, "C21.edit", key+" · fresh dependency list", depApp.call.Pos(), "filtered dependencies are appended to a slice made in this call", "the filtered dependency list is built in the backing array of the caller's record ("+abbr(exprStr(depApp.call.Call.Args[0], shapeOpts))+"): stored queue entries are overwritten")
+	// no store through parameters (E and its helpers)
 	bad := ""
-	allInstrs(f, func(in ssa.Instruction) {
+	visitWithHelpers(f, o, func(g *ssa.Function, subst map[ssa.Value]string, in ssa.Instruction) {
 		if st, ok := in.(*ssa.Store); ok && !rootedInLocal(st.Addr) {
 			bad = abbr(exprStr(st.Addr, shapeOpts))
+		}
+		if mu, ok := in.(*ssa.MapUpdate); ok && !rootedInLocal(mu.Map) {
+			bad = abbr(exprStr(mu.Map, shapeOpts))
 		}
 	})
 	c.Check(bad == "", "C21.edit", key+" · arguments untouched", f.Pos(), "no store outside local storage", "stores through "+bad)
@@ -234,12 +276,179 @@ func c21Edit(c *Ctx, f *ssa.Function) {
 	stOK := false
 	allInstrs(f, func(in ssa.Instruction) {
 		if st, ok := in.(*ssa.Store); ok && strings.HasSuffix(abbr(exprStr(st.Addr, shapeOpts)), ".Dependencies") {
-			if localRoot(st.Val) == root {
+			if localRoot(st.Val) == root && depApp.g == f {
 				stOK = true
+			}
+			if call, isCall := st.Val.(*ssa.Call); isCall && call.Call.StaticCallee() == depApp.g && depApp.g != f {
+				// the helper returns the list it filtered
+				ok2 := true
+				allInstrs(depApp.g, func(in2 ssa.Instruction) {
+					if r, isR := in2.(*ssa.Return); isR && (len(r.Results) != 1 || localRoot(r.Results[0]) != root) {
+						ok2 = false
+					}
+				})
+				stOK = ok2
 			}
 		}
 	})
 	c.Check(stOK, "C21.edit", key+" · record carries filtered list", f.Pos(), "item.Dependencies ← filtered list before the record is appended", "the kept record does not receive the filtered dependency list")
+}
+
+// c21Priority: Q(r) as the GP recursion g ⌢ Q(E(r, P(g))) or as its loop form.
+func c21Priority(c *Ctx, q, e, p *ssa.Function) {
+	A := "internal/accumulation."
+	key := A + "AccumulationPriorityQueue"
+	o := robustOpts
+	// g: appends of item.Report selected by |item.Dependencies| = 0
+	var gApp *ssa.Call
+	allInstrs(q, func(in ssa.Instruction) {
+		if call, ok := in.(*ssa.Call); ok {
+			if b, ok := call.Call.Value.(*ssa.Builtin); ok && b.Name() == "append" && strings.HasSuffix(abbr(exprStr(call.Call.Args[1], o)), "[*].Report][:]") {
+				gApp = call
+			}
+		}
+	})
+	if gApp == nil {
+		c.Bad("C21.priority", key+" · ready reports", q.Pos(), "no list of the records' reports is collected")
+		return
+	}
+	rows, reached, ok := selectionTable(gApp, o, nil, func(s string) int {
+		if strings.HasPrefix(s, "len(") && strings.HasSuffix(s, "[*].Dependencies)") {
+			return 0
+		}
+		return -1
+	}, [][]int64{{0, 1, 2}})
+	good := ok
+	for i, r := range rows {
+		if reached[i] != (r[0] == 0) {
+			good = false
+		}
+	}
+	c.Check(good, "C21.priority", key+" · ready reports", gApp.Pos(), "g collects the report of exactly the records with no remaining dependency, in order", "g is not selected by `no remaining dependency`")
+	// the list the records are taken from
+	var queue ssa.Value
+	if sl, isSl := gApp.Call.Args[1].(*ssa.Slice); isSl {
+		if a, isA := sl.X.(*ssa.Alloc); isA {
+			if es := arrayLiteral(a); len(es) == 1 {
+				v := es[0]
+				for i := 0; i < 12; i++ {
+					switch x := v.(type) {
+					case *ssa.UnOp:
+						v = x.X
+						continue
+					case *ssa.Alloc:
+						if sv := singleStore(x); sv != nil {
+							v = sv
+							continue
+						}
+					case *ssa.FieldAddr:
+						v = x.X
+						continue
+					case *ssa.Field:
+						v = x.X
+						continue
+					case *ssa.IndexAddr:
+						queue = x.X
+					case *ssa.Index:
+						queue = x.X
+					}
+					break
+				}
+			}
+		}
+	}
+	// the accumulated g (append-phi) and the step E(queue, P(g))
+	var gList ssa.Value
+	for _, r := range *gApp.Referrers() {
+		if ph, ok := r.(*ssa.Phi); ok {
+			gList = ph
+		}
+	}
+	stepOK, recur := false, false
+	allInstrs(q, func(in ssa.Instruction) {
+		call, ok := in.(*ssa.Call)
+		if !ok || call.Call.StaticCallee() != e {
+			return
+		}
+		a0 := call.Call.Args[0]
+		pc, isCall := call.Call.Args[1].(*ssa.Call)
+		if !isCall || pc.Call.StaticCallee() != p {
+			return
+		}
+		sameQueue := queue != nil && (a0 == queue || stripConv(a0) == stripConv(queue))
+		gArg := pc.Call.Args[0]
+		sameG := gList != nil && (gArg == gList || reachesValue(gArg, gList, 0))
+		if sameQueue && sameG {
+			stepOK = true
+		}
+	})
+	allInstrs(q, func(in ssa.Instruction) {
+		if call, ok := in.(*ssa.Call); ok && call.Call.StaticCallee() == q {
+			recur = true
+		}
+	})
+	c.Check(stepOK, "C21.priority", key+" · step", q.Pos(), "the queue continues as E(r, P(g)) with the same r and g", "the next round is not E(r, P(g)) over the queue g was drawn from")
+	if recur {
+		g := "⊕(make([]types.WorkReport, 0); [p0[*].Report][:])"
+		rec := A + "AccumulationPriorityQueue(" + A + "QueueEditingFunction(p0, " + A + "ExtractWorkReportHashes(" + g + ")))"
+		var rets []string
+		for _, s := range abbrMap(returnShapesO(q, o))["ret"] {
+			rets = append(rets, expandAlts(s)...)
+		}
+		c.requireSet("C21.priority", key+" · result", q.Pos(), "Q returns", uniqSorted(rets), []string{"cat(" + g + ", " + rec + ")", "nil"})
+		c.requireAtoms("C21.priority", key, q, o, []string{"(0 == len(" + g + "))"})
+	} else {
+		// loop form: output accumulates g in order; returns output when g is empty
+		okAcc := false
+		allInstrs(q, func(in ssa.Instruction) {
+			call, ok := in.(*ssa.Call)
+			if !ok {
+				return
+			}
+			if b, ok := call.Call.Value.(*ssa.Builtin); ok && b.Name() == "append" && gList != nil && (call.Call.Args[1] == gList || reachesValue(call.Call.Args[1], gList, 0)) {
+				if _, isPhi := stripConv(call.Call.Args[0]).(*ssa.Phi); isPhi {
+					okAcc = true
+				}
+			}
+		})
+		emptyEnds := false
+		allInstrs(q, func(in ssa.Instruction) {
+			ifi, ok := in.(*ssa.If)
+			if !ok {
+				return
+			}
+			s := abbr(exprStr(ifi.Cond, o))
+			if strings.HasPrefix(s, "(0 == len(⊕(make([]types.WorkReport, 0); [") || strings.HasPrefix(s, "(0 != len(⊕(make([]types.WorkReport, 0); [") || strings.HasPrefix(s, "(0 < len(⊕(make([]types.WorkReport, 0); [") {
+				emptyEnds = true
+			}
+		})
+		c.Check(okAcc && emptyEnds, "C21.priority", key+" · result", q.Pos(), "each round's g is appended to the output in order; an empty g ends the loop", "the loop does not accumulate g ⌢ … in order or does not stop on an empty g")
+		c.OK("C21.priority", key+" · tests (0 == len(g))", q.Pos(), "empty g ends the iteration")
+	}
+}
+
+// reachesValue: v is w up to conversions, reslicing of the whole, or phis.
+func reachesValue(v, w ssa.Value, d int) bool {
+	if d > 6 {
+		return false
+	}
+	v = stripConv(v)
+	if v == w {
+		return true
+	}
+	switch x := v.(type) {
+	case *ssa.Phi:
+		for _, e := range x.Edges {
+			if reachesValue(e, w, d+1) {
+				return true
+			}
+		}
+	case *ssa.Slice:
+		if x.Low == nil && x.High == nil {
+			return reachesValue(x.X, w, d+1)
+		}
+	}
+	return false
 }
 
 // c21Shift: the loop store is ξ'[i] ← ξ[i+1].
@@ -268,19 +477,162 @@ func c21Shift(c *Ctx, f *ssa.Function) {
 	c.Check(ok, "C21.history", funcKey(f)+" · shift by one", f.Pos(), "ξ'[i] ← ξ[i+1]", "the history is not shifted by exactly one slot")
 }
 
-// c21VarthetaArms: arm selection of ϑ'.
+// c21VarthetaArms: arm selection of ϑ', decided as a table over (i, τ'−τ) ∈ {0..3}²:
+// i = 0 ↦ E(W^Q, ·); 1 ≤ i < τ'−τ ↦ emptied; otherwise ↦ E(ϑ[slot], ·).
 func c21VarthetaArms(c *Ctx, f *ssa.Function) {
-	// i == 0 arm stores E(W^Q,…); emptied arm is behind 1 <= i && i < τ'−τ; third behind i >= τ'−τ
-	conds := abbrAll(condShapes(f))
-	has := func(s string) bool {
-		for _, x := range conds {
-			if x == s {
+	o := robustOpts
+	arms := map[string]*ssa.Store{}
+	allInstrs(f, func(in ssa.Instruction) {
+		st, ok := in.(*ssa.Store)
+		if !ok {
+			return
+		}
+		if _, isIA := st.Addr.(*ssa.IndexAddr); !isIA {
+			return
+		}
+		v := abbr(exprStr(st.Val, o))
+		switch {
+		case strings.Contains(v, "QueueEditingFunction(inter.GetQueuedWorkReports("):
+			arms["queued"] = st
+		case strings.Contains(v, "QueueEditingFunction(prior.GetVartheta("):
+			arms["carried"] = st
+		case v == "[][:]" || v == "nil" || strings.HasPrefix(v, "make([]types.ReadyRecord, 0"):
+			arms["emptied"] = st
+		}
+	})
+	if len(arms) != 3 {
+		c.Bad("C21.history", funcKey(f)+" · arm conditions", f.Pos(), "the three stores of ϑ' (queued, emptied, carried) were not all found (found %d)", len(arms))
+		return
+	}
+	match := func(s string) int {
+		switch {
+		case s == "*":
+			return 0
+		case strings.Contains(s, "GetTau(") && strings.HasSuffix(s, "GetPriorStates(p0)))") && !strings.HasPrefix(s, "int("):
+			return 1
+		}
+		return -1
+	}
+	bad := ""
+	for name, st := range arms {
+		rows, reached, ok := selectionTable(st, o, nil, match, [][]int64{{0, 1, 2, 3}, {0, 1, 2, 3}})
+		if !ok {
+			bad = "the " + name + " arm is guarded by something other than the slot offset i and τ'−τ"
+			break
+		}
+		for k, r := range rows {
+			i, off := r[0], r[1]
+			want := false
+			switch name {
+			case "queued":
+				want = i == 0
+			case "emptied":
+				want = i >= 1 && i < off
+			case "carried":
+				want = i != 0 && i >= off
+			}
+			if reached[k] != want {
+				bad = fmt.Sprintf("with i=%d and τ'−τ=%d the %s arm is taken=%v", i, off, name, reached[k])
+				break
+			}
+		}
+		if bad != "" {
+			break
+		}
+	}
+	c.Check(bad == "", "C21.history", funcKey(f)+" · arm conditions", f.Pos(), "arms selected by i = 0, 1 ≤ i < τ'−τ, i ≥ τ'−τ (48/48 rows)", bad)
+}
+
+// c21Wstar: W* = W! ⌢ Q(E(ϑ[m:] ⌢ ϑ[:m] ⌢ W^Q, P(W!))).
+func c21Wstar(c *Ctx, f, e, q, p *ssa.Function) {
+	A := "internal/accumulation."
+	key := A + "UpdateAccumulatableWorkReports"
+	o := robustOpts
+	var ecall *ssa.Call
+	allInstrs(f, func(in ssa.Instruction) {
+		if call, ok := in.(*ssa.Call); ok && call.Call.StaticCallee() == e {
+			ecall = call
+		}
+	})
+	if ecall == nil {
+		c.Bad("C21.priority", key+" · SetAccumulatableWorkReports", f.Pos(), "no queue edit E(…) in the computation of W*")
+		return
+	}
+	oa := o
+	oa.abstract = func(v ssa.Value) (string, bool) {
+		if v == ecall.Call.Args[0] {
+			return "COMPOSED", true
+		}
+		return "", false
+	}
+	var got []string
+	allInstrs(f, func(in ssa.Instruction) {
+		if ci, ok := in.(ssa.CallInstruction); ok {
+			name := ""
+			if ci.Common().IsInvoke() {
+				name = ci.Common().Method.Name()
+			} else if sc := calleeFunc(ci); sc != nil {
+				name = sc.Name()
+			}
+			if name == "SetAccumulatableWorkReports" {
+				got = append(got, abbr(exprStr(ci.Common().Args[len(ci.Common().Args)-1], oa)))
+			}
+		}
+	})
+	want := "cat(inter.GetAccumulatedWorkReports(INTER), " + A + "AccumulationPriorityQueue(" + A + "QueueEditingFunction(COMPOSED, " + A + "ExtractWorkReportHashes(inter.GetAccumulatedWorkReports(INTER)))))"
+	c.Check(len(got) == 1 && got[0] == want, "C21.priority", key+" · SetAccumulatableWorkReports", f.Pos(), "W* = W! ⌢ Q(E(composed, P(W!)))", fmt.Sprintf("SetAccumulatableWorkReports is called with %v; the specification requires %s", got, want))
+	c.Check(mustCallOnEveryPath(f, "SetAccumulatableWorkReports"), "C21.priority", key+" · SetAccumulatableWorkReports on every path", f.Pos(), "no return is reachable without the call", "a path returns without storing W*")
+	// the composed queue: sources of its appends in program order
+	os := o
+	os.seqLit = true
+	var srcs []string
+	var apps []*ssa.Call
+	allInstrs(f, func(in ssa.Instruction) {
+		if call, ok := in.(*ssa.Call); ok {
+			if b, ok := call.Call.Value.(*ssa.Builtin); ok && b.Name() == "append" && strings.Contains(typeStr(call.Type()), "Ready") {
+				apps = append(apps, call)
+			}
+		}
+	})
+	sort.SliceStable(apps, func(i, j int) bool { return apps[i].Pos() < apps[j].Pos() }) // straight-line sequence of loops: source order is execution order
+	for _, a := range apps {
+		srcs = append(srcs, expandSeq(abbr(exprStr(a.Call.Args[1], os)))...)
+	}
+	m := "(int(BLOCK.Header.Slot) % types.EpochLength)"
+	wantS := []string{"prior.GetVartheta(PRIOR)[" + m + ":][*]", "prior.GetVartheta(PRIOR)[:" + m + "][*]", "inter.GetQueuedWorkReports(INTER)"}
+	c.Check(strings.Join(srcs, " ;; ") == strings.Join(wantS, " ;; "), "C21.priority", key+" · composed queue", f.Pos(), "composed = ϑ[m:] ⌢ ϑ[:m] ⌢ W^Q with m = slot mod E", fmt.Sprintf("the composed queue is built from %v in that order; GP 12.12 takes %v", srcs, wantS))
+	// the appends all feed the edited queue
+	fed := true
+	for _, a := range apps {
+		if !feeds(a, ecall.Call.Args[0], map[ssa.Value]bool{}, 0) {
+			fed = false
+		}
+	}
+	c.Check(fed && len(apps) > 0, "C21.priority", key+" · composed queue is what is edited", f.Pos(), "every part reaches E's first argument", "a part of the composed queue does not reach the edit")
+}
+
+// feeds: value a flows into v through append bases and phis.
+func feeds(a ssa.Value, v ssa.Value, seen map[ssa.Value]bool, d int) bool {
+	if v == a {
+		return true
+	}
+	if seen[v] || d > 20 {
+		return false
+	}
+	seen[v] = true
+	switch x := v.(type) {
+	case *ssa.Phi:
+		for _, e := range x.Edges {
+			if feeds(a, e, seen, d+1) {
 				return true
 			}
 		}
-		return false
+	case *ssa.Call:
+		if b, ok := x.Call.Value.(*ssa.Builtin); ok && b.Name() == "append" {
+			return feeds(a, x.Call.Args[0], seen, d+1)
+		}
+	case *ssa.ChangeType:
+		return feeds(a, x.X, seen, d+1)
 	}
-	tau := "int((post.GetTau((*internal/blockchain.ChainState).GetPosteriorStates(p0)) - prior.GetTau((*internal/blockchain.ChainState).GetPriorStates(p0))))"
-	ok := has("("+tau+" <= *)") && has("phi((* < "+tau+") | false)")
-	c.Check(ok, "C21.history", funcKey(f)+" · arm conditions", f.Pos(), "arms selected by i = 0, 1 ≤ i < τ'−τ, i ≥ τ'−τ", fmt.Sprintf("arm conditions are %v", conds))
+	return false
 }
